@@ -45,13 +45,14 @@ def Series(params: SeriesParams) -> h.Module:
     m = h.Module()
 
     # Copy the unit-cell ports
-    for p in params.unit.ports.values():
-        m.add(deepcopy(p))
+    _copy_io(m, params.unit)
 
     # Divy up the ports by series vs parallel connections
     series_conns = _seriesconns(m, params.conns)
     par_ports = [port for port in m.ports.values() if port not in series_conns]
     unit_conns = {port.name: port for port in par_ports}
+    # Bundle-valued ports are all wired in parallel
+    unit_conns.update(m.bundle_ports)
 
     # Create the internal series-connected signals, and concatenate them with the series ports
     i = m.add(h.Signal(name="i", width=params.nser - 1))
@@ -63,6 +64,31 @@ def Series(params: SeriesParams) -> h.Module:
 
     # And return the module
     return m
+
+
+def _copy_io(m: h.Module, unit: h.Instantiable) -> dict:
+    """Add a copy of each of `unit`'s ports, signal and bundle valued, to Module `m`.
+    Returns them as a dictionary keyed by name, which can also serve as the connections to an instance of `unit`."""
+    from .instantiable import io
+
+    rv = dict()
+    for p in io(unit).values():
+        if isinstance(p, h.BundleInstance):
+            # Bundle instances are not deep-copyable; create a new one of the same type and orientation
+            p = h.BundleInstance(
+                name=p.name,
+                of=p.of,
+                port=True,
+                flipped=p.flipped,
+                role=p.role,
+                src=p.src,
+                dest=p.dest,
+                desc=p.desc,
+            )
+        else:
+            p = deepcopy(p)
+        rv[p.name] = m.add(p)
+    return rv
 
 
 def _seriesconns(m: h.Module, conns: SeriesConns) -> Tuple[h.Signal, h.Signal]:
@@ -118,14 +144,12 @@ def Wrapper(m: h.Instantiable) -> h.Module:
     Callers of `Wrapper` are therefore responsible for considerations such as unique naming.
     """
 
-    from .instantiable import io
-
     # Initialize our wrapper-module
     wrapper = h.Module(name=f"{m.name}Wrapper")
 
     # Copy the inner-cell ports
     # Note this also serves as the connections-dict to the inner instance
-    wrapper_io = {p.name: wrapper.add(deepcopy(p)) for p in io(m).values()}
+    wrapper_io = _copy_io(wrapper, m)
 
     # Create the inner instance
     wrapper.add(h.Instance(name="inner", of=m)(**wrapper_io))
